@@ -1,11 +1,13 @@
 import DaskModel.Lemmas.SDL
 import DaskModel.Lemmas.SDLExact
+import DaskModel.Lemmas.SDLTotal
 /-! # C45 — division planning never splits equal index values (theorems)
 
 Model: `Dask.SDL.sdl` (`Model/SDL.lean`), a transliteration of
 `dask.dataframe.io.io.sorted_division_locations`. `sdl seq m = none` models "Python raised"
-(empty input, `npartitions = 0`, IndexError inside the loop) or fuel exhaustion; the theorems below
-hold for **every** sorted input and both modes whenever an answer is produced.
+(empty input, `npartitions = 0`, IndexError inside the loop) or fuel exhaustion. `sdl_total` shows that for a
+sorted non-empty input and a valid mode an answer IS produced (no IndexError, fuel suffices), so the
+"whenever an answer is produced" theorems below hold for **every** sorted non-empty input and both modes.
 The invariant of the loop body (`Lemmas/SDL.lean`: `Inv`, `step_inv`, `loop_inv`) rests on two facts:
 every entry of `offsets` is a first-occurrence position (`bisectLeft_mem`), and a sorted sequence
 from which `sorted(set(seq))` drops nothing is strictly increasing (`strict_of_no_dup`).
@@ -92,21 +94,83 @@ theorem sdl_boundary_first_occurrence {seq : List Nat} {m : Mode} {divs locs : L
   · exact hinv.first l hl hl0
 
 /-- FULL STATEMENT of the fourth clause: with at least `n` distinct values `npartitions = n` is met exactly
-    (and the function returns). Proved below for the duplicate-free case; with duplicates (`enforce_exact`
-    branch: the step-back arithmetic on `offsets`) it is validated exhaustively by the tie only. -/
+    (and the function returns). Proved below (`sdl_exact_when_enough_unique`) for every sorted sequence. -/
 def ExactWhenEnoughUniqueFullStatement : Prop :=
   ∀ (seq : List Nat) (n : Nat), Sorted seq → 1 ≤ n → n ≤ (dedupSorted seq).length →
     ∃ divs locs, sdl seq (.npartitions n) = some (divs, locs) ∧ locs.length = n + 1
 
-/-- **`npartitions` met exactly — `_partial`: duplicate-free sequences.** For a strictly increasing sequence
-    and `1 ≤ n ≤ len` the function returns (no IndexError; the model's fuel suffices) exactly `n` partitions,
-    at the ideal locations `j * (len / n) + min j (len % n)`. -/
+/-- **closed form, duplicate-free sequences.** For a strictly increasing sequence and `1 ≤ n ≤ len` the
+    function returns exactly `n` partitions at the ideal locations `j * (len / n) + min j (len % n)`
+    (more than `sdl_exact_when_enough_unique` says: the locations themselves; `_partial` because the closed
+    form only holds without duplicates). -/
 theorem sdl_exact_when_enough_unique_partial (seq : List Nat) (n : Nat) (hstrict : seq.Pairwise (· < ·))
     (hn1 : 1 ≤ n) (hn : n ≤ seq.length) :
     ∃ divs locs, sdl seq (.npartitions n) = some (divs, locs) ∧ locs.length = n + 1 ∧
       locs = (List.range (n + 1)).map (prefixLoc (seq.length / n) (seq.length % n)) := by
   obtain ⟨divs, h⟩ := sdl_exact_nodup seq n hstrict hn1 hn
   exact ⟨divs, _, h, by simp, rfl⟩
+
+/-- **Totality / termination in general.** For every sorted non-empty sequence and both modes (`npartitions ≥ 1`,
+    any `chunksize` including 0) `sorted_division_locations` returns: no IndexError on `offsets[ind]` / `seq[i]`
+    (also not in the `enforce_exact` step-back), and the loop finishes within the model's fuel — at most two
+    iterations per appended boundary (measure `mu`, `step_progress`). -/
+theorem sdl_total {seq : List Nat} {m : Mode} (hs : Sorted seq) (hne : seq ≠ [])
+    (hm : guardMode m = some ()) : ∃ divs locs, sdl seq m = some (divs, locs) := by
+  obtain ⟨s', last, _, h, _, _⟩ := sdl_run hs hne hm
+  exact ⟨_, _, h⟩
+
+/-- **Never more than `npartitions` partitions** (any sorted input, duplicates or not): the drift bookkeeping
+    keeps the scan position at or beyond the ideal location of the next boundary, and the ideal location of
+    boundary `n` is `len(seq)`. -/
+theorem sdl_at_most_n {seq : List Nat} {n : Nat} {divs locs : List Nat} (hs : Sorted seq)
+    (h : sdl seq (.npartitions n) = some (divs, locs)) : locs.length ≤ n + 1 := by
+  have hne : seq ≠ [] := by
+    intro he; subst he; simp [sdl] at h
+  have hm : guardMode (.npartitions n) = some () := by
+    cases n with
+    | zero => simp [sdl, guardMode] at h
+    | succ k => rfl
+  obtain ⟨s', last, _, h', hg, _⟩ := sdl_run hs hne hm
+  rw [h] at h'
+  simp only [Option.some.injEq, Prod.mk.injEq] at h'
+  obtain ⟨_, rfl⟩ := h'
+  have hcount := hg.count rfl
+  have hlen := hg.inv.val.length_eq
+  simp only [nOf] at hcount
+  simp only [List.length_reverse, List.length_cons]
+  omega
+
+/-- **`npartitions` is met exactly when there are at least that many distinct values** — the full fourth clause
+    (`ExactWhenEnoughUniqueFullStatement`), with duplicates (`enforce_exact`: the step-back `ind -= divs_remain -
+    offs_remain` keeps `divs_remain ≤ #unique values beyond the last division`, and the scan can only end once
+    all `n` divisions are placed) and without (closed form above). Includes totality. -/
+theorem sdl_exact_when_enough_unique : ExactWhenEnoughUniqueFullStatement := by
+  intro seq n hs hn1 hn
+  by_cases hdup : (dedupSorted seq).length < seq.length
+  · have hne : seq ≠ [] := by
+      intro he; subst he; simp at hdup
+    have hm : guardMode (.npartitions n) = some () := by
+      cases n with
+      | zero => omega
+      | succ k => rfl
+    obtain ⟨s', last, _, h, hg, hi⟩ := sdl_run hs hne hm
+    refine ⟨_, _, h, ?_⟩
+    have hoff := (mkParams_dwf hs (.npartitions n)).offs_length (by simp [mkParams, hdup])
+    have he : (mkParams seq (.npartitions n)).enforce = true := by
+      have : (mkParams seq (.npartitions n)).enforce =
+        ((mkParams seq (.npartitions n)).dup && decide (n ≤ (mkParams seq (.npartitions n)).offsets.length)) := rfl
+      rw [this, hoff]
+      simp [mkParams, hdup, hn]
+    have hdone := hg.done he (by omega)
+    obtain ⟨hr, _, _⟩ := hg.rem he
+    have hlen := hg.inv.val.length_eq
+    simp only [nOf] at hr
+    simp only [List.length_reverse, List.length_cons]
+    omega
+  · have hstrict := strict_of_no_dup hs hdup
+    have hle := (dedupSorted_sublist seq).length_le
+    obtain ⟨divs, locs, h, hl, _⟩ := sdl_exact_when_enough_unique_partial seq n hstrict hn1 (by omega)
+    exact ⟨divs, locs, h, hl⟩
 
 example : sdl [1, 3, 4, 7, 9, 12, 20] (.npartitions 3) = some ([1, 7, 12, 20], [0, 3, 5, 7]) := by decide
 example : (List.range 4).map (prefixLoc (7 / 3) (7 % 3)) = [0, 3, 5, 7] := by decide
@@ -117,5 +181,17 @@ example : sdl [0, 0, 1, 1, 1, 1, 2, 2, 4, 5, 5, 5, 5] (.npartitions 4) =
     some ([0, 1, 2, 5, 5], [0, 2, 6, 9, 13]) := by decide
 example : sdl [0, 0, 0, 0, 1, 1, 1, 2] (.chunksize 3) = some ([0, 1, 2, 2], [0, 4, 7, 8]) := by decide
 example : Sorted [0, 0, 1, 1, 1, 1, 2, 2, 4, 5, 5, 5, 5] := by unfold Sorted; decide
+-- `sdl_exact_when_enough_unique` with duplicates: 5 distinct values, n = 5 forces the step-back branch
+example : (dedupSorted [0, 0, 1, 1, 1, 1, 2, 2, 4, 5, 5, 5, 5]).length = 5 := by decide
+example : sdl [0, 0, 1, 1, 1, 1, 2, 2, 4, 5, 5, 5, 5] (.npartitions 5) =
+    some ([0, 1, 2, 4, 5, 5], [0, 2, 6, 8, 9, 13]) := by decide
+-- … and an input on which the step-back really happens (`i = 3`, `ind = 2`, 2 unique values left, 3 divisions wanted)
+example : sdl [0, 1, 2, 2, 2, 2, 2, 2, 2, 3] (.npartitions 4) = some ([0, 1, 2, 3, 3], [0, 1, 2, 9, 10]) := by decide
+example : sdlStats [0, 1, 2, 2, 2, 2, 2, 2, 2, 3] (.npartitions 4) = some (4, 1) := by decide
+-- `sdl_at_most_n` is not vacuous when there are fewer distinct values than requested partitions
+example : sdl [0, 0, 0, 1, 1, 1] (.npartitions 4) = some ([0, 1, 1], [0, 3, 6]) := by decide
+-- `sdl_total`: guard and hypotheses are satisfiable in both modes (also `chunksize = 0`)
+example : guardMode (.npartitions 3) = some () ∧ guardMode (.chunksize 0) = some () := by decide
+example : sdl [0, 0, 1] (.chunksize 0) = some ([0, 1, 1], [0, 2, 3]) := by decide
 
 end Dask.C45
